@@ -16,4 +16,20 @@ PROPS = {
     "C01": P(["C01.mod10_eq_pow", "C01.hashIds_eq", "C01.C01_derive_eq_rfc", "C01.C01_generate_eq_rfc", "C01.C01_unsupported", "C01.C01_shape", "C01.C01_nil_defaults"],
              n_quick=1500, n_thorough=60000,
              explanation="theorems: model of GenerateHOTP/deriveRFC4226/truncate/shortDigit/longDigit = RFC 4226 value for all keys, counters, digits 1..10, hashes; regenerated mod10/masks/hash order checked by decide; correspondence: ghotp/derive/trunc/fmt ops incl. the complete offset x boundary-value grid of the truncate+format stage"),
+    "C02": P(["C02.C02_totp_eq_hotp", "C02.C02_totp_eq_rfc", "C02.C02_step", "C02.C02_boundary", "C02.C02_defaults"], n_quick=1500, n_thorough=50000,
+             explanation="theorems: GenerateTOTP = GenerateHOTP at floor(sec/period) for 0 <= sec < 2^63, any period < 2^64 (0 = 30), defaults; correspondence: gtotp ops with nanoseconds / zone / monotonic reading varied at +-2 s of step boundaries"),
+    "C03": P(["C03.C03_iff", "C03.C03_self", "C03.C03_len", "C03.C03_skew_refused", "C03.C03_nil", "C03.C03_bad_secret"], n_quick=1500, n_thorough=40000,
+             explanation="theorems: window loop as written accepts exactly codes of counters in [max(0,c-s), c+s]; correspondence: vhotp ops with codes of every window distance -(s+3)..(s+3) and 10 mutation kinds"),
+    "C04": P(["C04.C04_iff", "C04.C04_self", "C04.C04_skew_refused", "C04.C04_work", "C04.C04_fuel", "C04.C04_nil"], n_quick=1500, n_thorough=40000,
+             explanation="theorems: TOTP skew loop (wrapping uint64 addition) accepts exactly steps in [n-s, n+s] when s <= n; skew > 10 refused; at most 21 HMACs per call; correspondence: vtotp ops"),
+    "C05": P(["C05.C05_eq_rfc", "C05.C05_eq_rfc_spec", "C05.C05_unselected", "C05.C05_shape", "C05.C05_newSuite"], n_quick=1200, n_thorough=30000,
+             explanation="theorems: deriveRFC6287 = RFC 6287 value over the documented layout for every usable suite config and admitted input; unselected fields have no influence; correspondence: gocra ops over registered, parsed and hand-built suites incl. histories that dirty the pooled buffer"),
+    "C06": P(["C06.C06_iff", "C06.C06_fail", "C06.C06_total", "C06.C06_self", "C06.deriveRFC6287_no_panic"], n_quick=1500, n_thorough=30000,
+             explanation="theorems: ValidateOCRA = (true,nil) iff GenerateOCRA returns that string, for every suite/input/string; failure => (false, error); correspondence: vocra ops with mutated and neighbouring codes"),
+    "C07": P(["C07.C07_spellings", "C07.C07_reject_alphabet", "C07.C07_entrypoints", "C07.C07_same_code"], n_quick=2000, n_thorough=60000,
+             explanation="theorems: DecodeSecret (TrimSpace, alphabet check, re-padding, ToUpper, Go's base32 decoder as written) maps every spelling of the encoding of b back to b, for every byte string b; correspondence: dec ops over all residues mod 5, paddings kept, case mixes, white space, malformed classes; std.b32dec/std.trim validate the stdlib models"),
+    "C08": P(["C08.C08_bytes", "C08.C08_decode", "C08.C08_text", "C08.C08_unsupported", "C08.C08_history"], n_quick=1500, n_thorough=20000,
+             explanation="theorems: RandomSecret returns the unpadded base32 of exactly the next 20/32/64 stream bytes, decodes back, histories consume consecutive disjoint segments; correspondence: rnd ops with crypto/rand.Reader substituted by recording readers (also short-chunk readers)"),
+    "C14": P(["C14.C14_suite", "C14.C14_input", "C14.derive_ok_of_valid", "C14.C14_entry", "C14.C14_entry_spec", "C14.C14_unselected"], n_quick=1200, n_thorough=30000,
+             explanation="theorems: SuiteConfig.Validate <-> usable, OCRAInput.Validate <-> admissible (enums in range), GenerateOCRA returns a code iff both; correspondence: adm ops with every field at every length 0..140 for 6 base configurations (complete grid) plus random configurations"),
 }
